@@ -21,7 +21,7 @@ RULE = ("random full grids over all direction x rotation algorithm combinations 
 ASSUMPTIONS = ["quaternion columns compared bit-exactly, positions at 1e-12 relative, decomposition at 1e-8 (the code rounds to 8 decimals)",
                "radii are re-read from the text by the harness' own exact reader"]
 EXHAUSTIVE = {"quick": False, "thorough": False}
-MIN_NONTRIVIAL = {"quick": 20, "thorough": 250}
+MIN_NONTRIVIAL = {"quick": 20, "thorough": 400}
 SHARD_TIMEOUT = {"quick": 900, "thorough": 7200}
 
 REG = {}
@@ -176,7 +176,7 @@ def drive(fullgrid, b, o, t, rng):
 
 
 def shards(tier, seed):
-    n, per = (8, 15) if tier == "quick" else (16, 26)
+    n, per = (8, 15) if tier == "quick" else (16, 150)
     return [{"rseed": seed * 1000 + i, "count": per} for i in range(n)]
 
 
